@@ -1,3 +1,4 @@
 pub mod expr;
 pub mod tree;
 pub mod xargs;
+pub mod glob;
